@@ -162,6 +162,9 @@ def programs(draw):
                 return True
         return False
 
+    if draw(st.integers(0, 3)) == 0:
+        return compose_family(draw, atoms, cond, gcond, dur), atoms
+
     behaviors = []
     for i in range(nb):
         shape = draw(st.integers(0, 4))
@@ -195,15 +198,6 @@ def programs(draw):
         if inv and draw(st.integers(0, 4)) == 0:
             inv.append(gcond())
         behaviors.append({"name": f"B{i}", "pre": pre, "inv": inv, "body": b})
-    if draw(st.integers(0, 9)) > 0:
-        # shapes that the unchanged tree cannot compile are kept rare (they end the case at
-        # once): nested statements with more clauses than the outermost ones are trimmed ...
-        for b in behaviors:
-            trim_nested(b["body"])
-    if draw(st.integers(0, 9)) > 0:
-        # ... and a break/continue that would have to cross two statements becomes a return
-        for b in behaviors:
-            no_two_level(b["body"], 0, False)
     setup = [["obj", "a0", "B0"]]
     if draw(st.integers(0, 3)) == 0:
         setup.append(["obj", "a1", "B%d" % draw(st.integers(0, nb - 1))])
@@ -218,6 +212,114 @@ def programs(draw):
                            "compose": None}],
             "toplevel": not (spre or sinv)}
     return prog, atoms
+
+
+def compose_family(draw, atoms, cond, gcond, dur):
+    """Try-interrupt statements in compose blocks, with sub-scenarios started under their
+    blocks; every sub-scenario carries a monitor that logs at every step it is alive, so an
+    abandoned sub-scenario that is not stopped is visible."""
+    tagc = [0]
+
+    def log():
+        tagc[0] += 1
+        return ["log", f"c{tagc[0]}"]
+
+    def cbody(owner, ti, loop, handler, depth, maxn=3):
+        out = []
+        for _ in range(draw(st.integers(1, maxn))):
+            s = cstmt(owner, ti, loop, handler, depth)
+            out.append(s)
+            if s[0] in ("abort", "break", "continue", "return"):
+                break
+        return out
+
+    def chandler(owner, ti, loop, depth):
+        b = cbody(owner, ti, loop, True, depth)
+        if draw(st.integers(0, 5)) > 0 and b[0][0] not in ("wait", "do", "do_for"):
+            b[:0] = [log(), ["wait"]]
+        return b
+
+    def cstmt(owner, ti, loop, handler, depth):
+        kinds = ["wait", "wait", "log", "wait_for"]
+        if owner < 2:
+            kinds += ["do", "do", "do", "do_for", "do_until"]
+        if ti < 2 and depth > 0:
+            kinds += ["try"] * (5 if ti == 0 else 2)
+        if depth > 0:
+            kinds += ["if", "for", "while"]
+        if ti > 0:
+            kinds += ["return"]
+            if loop:
+                kinds += ["break", "continue"]
+            if handler:
+                kinds += ["abort", "abort", "abort"]
+        kk = draw(st.sampled_from(kinds))
+        if kk == "wait":
+            return ["wait"]
+        if kk == "log":
+            return log()
+        if kk == "wait_for":
+            return ["wait_for", *dur()]
+        if kk in ("do", "do_for", "do_until"):
+            names = ["S%d" % draw(st.integers(owner + 1, 2))]
+            if names[0] == "S1" and draw(st.integers(0, 4)) == 0:
+                names.append("S2")
+            if kk == "do":
+                return ["do", names]
+            if kk == "do_for":
+                return ["do_for", names, *dur()]
+            return ["do_until", names, cond()]
+        if kk == "try":
+            tb = cbody(owner, ti + 1, loop, False, depth - 1)
+            if owner < 2 and not any(x[0].startswith("do") for x in tb):
+                tb.insert(draw(st.integers(0, len(tb))), ["do", ["S%d" % (owner + 1)]])
+            hs = [[cond(), chandler(owner, ti + 1, loop, depth - 1)]
+                  for _ in range(draw(st.integers(1, 3)))]
+            return ["try", tb, hs]
+        if kk == "if":
+            return ["if", cond(), cbody(owner, ti, loop, handler, depth - 1, 2),
+                    cbody(owner, ti, loop, handler, depth - 1, 2) if draw(st.booleans()) else []]
+        if kk == "for":
+            return ["for", draw(st.integers(1, 3)), cbody(owner, ti, True, handler, depth - 1)]
+        if kk == "while":
+            b = cbody(owner, ti, True, handler, depth - 1)
+            if not any(x[0] == "wait" for x in b):
+                b.insert(0, ["wait"])
+            return ["while", cond() if draw(st.integers(0, 2)) == 0 else None, b]
+        return [kk]
+
+    behaviors = [{"name": "B0", "pre": [], "inv": [], "body": [["while", None, [["take", 1]]]]},
+                 {"name": "B1", "pre": [], "inv": [], "body": [["take", 2], ["take", 3],
+                                                               ["while", None, [["take", 4]]]]}]
+    monitors = [{"name": f"M{i}", "body": [["while", None, [["log", f"m{i}"], ["wait"]]]]}
+                for i in (1, 2)]
+    scenarios = []
+    main_comp = cbody(0, 0, False, False, 3)
+    if not any(x[0] == "try" for x in main_comp):
+        main_comp.append(cstmt(0, 0, False, False, 3) if draw(st.booleans()) else
+                         ["try", [["do", ["S1"]]], [[cond(), chandler(0, 1, False, 2)]]])
+    main_comp.append(["while", None, [log(), ["wait"]]])
+    scenarios.append({"name": "Main", "pre": [], "inv": [gcond()] if draw(st.integers(0, 5)) == 0
+                      else [], "setup": [["obj", "a0", "B0"]], "compose": main_comp})
+    for i in (1, 2):
+        setup = [["monitor", f"M{i}"]]
+        if draw(st.booleans()):
+            setup.append(["obj", f"a{i}", "B1"])
+        if draw(st.integers(0, 2)) == 0:
+            setup.append(["term_after", *dur()])
+        comp = None
+        if draw(st.booleans()):
+            comp = cbody(i, 0, False, False, 2) if draw(st.booleans()) else \
+                [["for", draw(st.integers(1, 4)), [log(), ["wait"]]]]
+            if not any(x[0] in ("wait", "wait_for", "do", "do_for", "do_until", "try", "for",
+                                "while", "if") for x in comp):
+                comp.append(["wait"])
+            comp.append(["wait"])
+        pre = [gcond()] if draw(st.integers(0, 5)) == 0 else []
+        scenarios.append({"name": f"S{i}", "pre": pre, "inv": [], "setup": setup,
+                          "compose": comp})
+    return {"behaviors": behaviors, "monitors": monitors, "scenarios": scenarios,
+            "toplevel": False}
 
 
 def trim_nested(body):
@@ -277,12 +379,15 @@ CAP = {"quick": 256, "thorough": 2048}
 _tier = ["quick"]
 
 NONTRIVIAL = {"handler-preempted-by-handler", "ctl-in-try:break", "ctl-in-try:continue",
-              "ctl-in-try:return", "abort"}
+              "ctl-in-try:return", "abort", "sub-scenario-abandoned"}
 
-DEFECT_SLUGS = {"ti_inv": "inv-under-try", "ti_flags": "brkflags", "ti_return2": "return2"}
+DEFECT_SLUGS = {"ti_inv": "inv-under-try", "ti_flags": "brkflags", "ti_return2": "return2",
+                "comp_zombie": "abandoned-sub-scenario-not-stopped",
+                "comp_onelist": "sub-scenario-list-clobbered"}
 DEFECTS = []
+_ORDER = ["comp_zombie", "comp_onelist", "ti_inv", "ti_flags", "ti_return2"]
 for _n in (1, 2, 3):
-    for _c in itertools.combinations(sorted(DEFECT_SLUGS), _n):
+    for _c in itertools.combinations(_ORDER, _n):
         DEFECTS.append(({d: True for d in _c},
                         "defect:" + "+".join(sorted(DEFECT_SLUGS[d] for d in _c))))
 
@@ -327,6 +432,16 @@ def static_features(prog):
             elif k in ("do", "do_for", "do_until") and ti:
                 feats.add("do-in-try")
 
+    for sc in prog["scenarios"]:
+        if sc.get("compose"):
+            n0 = len(feats)
+            walk(sc["compose"], 0)
+            if any(f.startswith("try-depth") for f in feats):
+                feats.add("compose-try")
+            del n0
+    if any(f == "compose-try" for f in feats):
+        feats.discard("do-in-try")
+        feats.add("do-scenario-in-try")
     for b in prog["behaviors"]:
         walk(b["body"], 0)
         if b["pre"]:
@@ -388,12 +503,13 @@ def judge(case, cap=None):
             sig = "compile|" + core.exc_signature(e)
         out.fail(sig, source=M.emit(prog), error=repr(e)[:400])
         return out
-    n_initial = len(prog["scenarios"][0]["setup"])
+    n_initial = sum(1 for x in prog["scenarios"][0]["setup"] if x[0] == "obj")
     L = case["steps"]
     fails = {}
     seen_feats = set()
     njudged = nstall = 0
     poisoned = False
+    prev_scene = None
     for code, table in tables_of(case, cap):
         plan = {"table": table, "schedule": [], "maxSteps": L, "timestep": case["timestep"],
                 "raise": case["raise"]}
@@ -407,8 +523,11 @@ def judge(case, cap=None):
         if poisoned and "top-guard-at-start" in exps[0]["features"]:
             continue
         p = dynsim.Plan(table, [])
+        # every other table re-simulates the scene of the previous one
         obs = dynsim.run(scenario, p, maxSteps=L, timestep=case["timestep"],
-                         raiseGuardViolations=case["raise"])
+                         raiseGuardViolations=case["raise"],
+                         scene=prev_scene if njudged % 2 else None)
+        prev_scene = obs.pop("scene")
         obs["timestep"] = case["timestep"]
         njudged += 1
         if obs["left_running"]:
@@ -417,6 +536,7 @@ def judge(case, cap=None):
             ent["count"] += 1
             src, scenario = c12.compile_prog(prog)
             poisoned = True
+            prev_scene = None
         feats = set().union(*[r["features"] for r in exps])
         if exps[0]["status"] == "guard" and exps[0]["time"] > 0:
             feats.add("guard-violated-late")
